@@ -135,6 +135,20 @@ TEMPLATES = [
     ("01", {}, [], "leading zero"),
     ("'\\q'", {}, [], "bad escape"),
     ("'\\ud800'", {}, [], "bad surrogate"),
+    ("|||\n  a\n", {}, [], "text block: EOF after a line break"),
+    ("|||\n  a\n b", {}, [], "text block: EOF in an under-indented last line"),
+    ("|||\n  a\r\n", {}, [], "text block: EOF after CRLF"),
+    ("|||\n  a\n\n", {}, [], "text block: EOF after a blank line"),
+    ("|||", {}, [], "text block start at EOF"),
+    ("||| x", {}, [], "text block without line break"),
+    ("|||\n", {}, [], "text block: EOF after the first line break"),
+    ("|||\nx", {}, [], "text block without indentation"),
+    ("import 'tb.libsonnet'", {"tb.libsonnet": "|||\n  a\n"}, [], "text block error at EOF of an imported file"),
+    ("1e", {}, [], "exponent at EOF"), ("1.", {}, [], "fraction at EOF"), ("1_", {}, [], "underscore at EOF"), ("'\\", {}, [], "escape at EOF"),
+    ("'\\u12", {}, [], "unicode escape at EOF"), ("\"\\ud800\\u", {}, [], "surrogate escape at EOF"), ("@'abc", {}, [], "verbatim at EOF"),
+    ("{a: 1", {}, [], "object at EOF"), ("local x = 1;", {}, [], "local at EOF"), ("if true then", {}, [], "if at EOF"), ("function(x)", {}, [], "function at EOF"),
+    ("f(", {}, [], "call at EOF"), ("a[", {}, [], "index at EOF"), ("a.", {}, [], "field at EOF"), ("[x for x in", {}, [], "comprehension at EOF"),
+    ("{a: 1} {", {}, [], "object extension at EOF"), ("1 +\n", {}, [], "operator then newline at EOF"), ("x", {}, [], "unknown variable one byte"),
     ("\xff".encode("latin-1").decode("latin-1"), {}, [], "non-ASCII"),
 ]
 
